@@ -239,7 +239,7 @@ impl Adversary {
         let newest_qc = qcs.last().map(|q| (*q).clone());
         let votes: Vec<&v2::ReplicaCommit> =
             self.commits.keys().filter(|c| c.view.number.0 <= view).collect();
-        let (high_vote, high_qc) = match lie % 6 {
+        let (high_vote, high_qc) = match lie % 8 {
             // nothing at all
             0 => (None, None),
             // truthful-looking: newest vote and newest certificate
@@ -264,6 +264,27 @@ impl Adversary {
                 }),
                 newest_qc,
             ),
+            // a corrupted copy of a genuine (old or new) certificate: signer bitmap cleared,
+            // one signer dropped / added, or the signature replaced - with or without a vote
+            6 | 7 if !qcs.is_empty() => {
+                let mut q = qcs[lie as usize / 8 % qcs.len()].clone();
+                match lie / 64 % 4 {
+                    0 => q.signers = v2::Signers(BitVec::from_elem(q.signers.0.len(), false)),
+                    1 => {
+                        let i = lie as usize / 256 % q.signers.0.len().max(1);
+                        let cur = q.signers.0.get(i).unwrap_or(false);
+                        if i < q.signers.0.len() {
+                            q.signers.0.set(i, !cur);
+                        }
+                    }
+                    2 => {
+                        let sig = self.c.keys[self.byz[0]].sign_msg(q.message.clone()).sig;
+                        q.signature = validator::AggregateSignature::aggregate([&sig]);
+                    }
+                    _ => q.signers = v2::Signers(BitVec::from_elem(q.signers.0.len() + 1, true)),
+                }
+                (if lie % 8 == 6 { None } else { votes.last().map(|v| (*v).clone()) }, Some(q))
+            }
             // newest vote, no certificate
             _ => (votes.last().map(|v| (*v).clone()), None),
         };
